@@ -189,5 +189,58 @@ def okWorld : World :=
 example : parseCollected id okWorld [(0, 1), (0, 2), (0, 3)]
     = some [("f[True-y0]", (0, 1)), ("f[1.0--1]", (0, 2)), ("g", (0, 3))] := by decide
 
+/-! ## The two hooks -/
+
+def Report.key : Report → Option TKey
+  | .succ p b _ => some (p, b)
+  | .fail => none
+
+/-- **C13_hooks_disjoint.** The prefix hook (collect.py) only reports functions that do *not* carry the
+`task` mark, the decorator hook (task.py) only functions taken from `COLLECTED_TASKS[path]`; the `@task`
+decorator marks a function in the very step that registers it. So a function object is handled by one
+hook, by the other, or by neither — never by both. -/
+theorem C13_hooks_disjoint_prefix (w : World) (path : Path) (m : Module) (p : Path) (b : String) (o : ObjId)
+    (h : Report.succ p b o ∈ prefixReports w path m) : isMarked w o = false ∧ isTaskName b = true := by
+  unfold prefixReports at h
+  obtain ⟨e, _, he⟩ := List.mem_filterMap.1 h
+  unfold prefixMember at he
+  cases hobj : e.2 with
+  | value => simp [hobj] at he
+  | fn id =>
+    simp only [hobj] at he
+    by_cases hc : (!isMarked w id && isTaskName e.1) = true
+    · simp only [hc, ↓reduceIte, Option.some.injEq, Report.succ.injEq] at he
+      obtain ⟨_, rfl, rfl⟩ := he
+      simpa using hc
+    · simp [hc] at he
+
+theorem C13_hooks_disjoint_decorator (enum : List String → List String) (w w' : World) (path : Path) (rs : List Report)
+    (h : decoratorReports enum w path = (w', some rs)) (p : Path) (b : String) (o : ObjId) (hr : Report.succ p b o ∈ rs) :
+    o ∈ regGet w.registry path := by
+  unfold decoratorReports at h
+  by_cases he : (regGet w.registry path).isEmpty = true
+  · simp [he] at h; obtain ⟨_, rfl⟩ := h; simp at hr
+  · simp only [he] at h
+    by_cases hd : hasDup (regGet w.registry path) = true
+    · simp [hd] at h
+    · simp only [hd] at h
+      cases hp : parseCollected enum { w with registry := regErase w.registry path } (regGet w.registry path) with
+      | none => simp [hp] at h
+      | some d =>
+        simp only [hp, Bool.false_eq_true, ↓reduceIte, Prod.mk.injEq, Option.some.injEq] at h
+        obtain ⟨_, rfl⟩ := h
+        obtain ⟨e, he', heq⟩ := List.mem_map.1 hr
+        simp only [Report.succ.injEq] at heq
+        obtain ⟨_, _, rfl⟩ := heq
+        exact (C13_ids_sound enum _ _ d hp).2 e he'
+
+/-- the `@task` decorator: the wrapped function is marked and registered under its own file in one step. -/
+theorem C13_wrap_marks_and_registers (file : Path) (gen : Nat) (w : World) (ns : Namespace) (obj : Nat)
+    (name id : Option String) (kw : List (String × Val)) (f : FnObj) (hf : w.heap.lookup (gen, obj) = some f) :
+    isMarked (execStmt file gen (w, ns) (.wrap obj name id kw)).1 (gen, obj) = true ∧
+    (gen, obj) ∈ regGet (execStmt file gen (w, ns) (.wrap obj name id kw)).1.registry f.file := by
+  simp only [execStmt, hf]
+  exact ⟨by simp [isMarked, List.lookup], regGet_regAppend _ _ _⟩
+
 end Collect
 end Pytask
